@@ -218,7 +218,8 @@ def norm_row(r: dict) -> dict:
     return r
 
 
-def replay_stepwise(beh: dict, c: dict, sub: Subst, *, integ="generic", delimited=True, frame_size=None):
+def replay_stepwise(beh: dict, c: dict, sub: Subst, *, integ="generic", delimited=True, frame_size=None,
+                    stop_on_reject=False):
     """Drive a real Stream through the ops of a behaviour.
 
     Returns dict(bytes, frames_rows, per_op_rows, accepted (abstract statements in order), namespaces,
@@ -278,6 +279,9 @@ def replay_stepwise(beh: dict, c: dict, sub: Subst, *, integ="generic", delimite
                     rejected.append((i, "<<accepted>>"))
             except Exception as ex:  # noqa: BLE001
                 rejected.append((i, type(ex).__name__))
+                if stop_on_reject:
+                    per_op.append(checkpoint())
+                    break
             per_op.append(checkpoint())
             i += 1
         elif kind == "gs":
